@@ -916,7 +916,16 @@ def comprehension_over(eng, n, fr, kind, first):
 
 # ------------------------------------------------------------- generators
 def run_generator(eng, func, fr):
-    """Generator functions are run eagerly; the yielded values form a one-shot Iter."""
+    """Generator functions are run eagerly; the yielded values form a one-shot Iter.
+    Contract option `generator_hook=fn(eng, func, frame)` (of the carrier being verified) may return another value for the
+    call (e.g. a LAZY sequence for a generator whose items have side effects, pyvc/ext_C19.py) or NotImplemented."""
+    for c in (getattr(eng, "cur_contract", None), eng.registry.get(func.key)):  # the carrier's contract, or the generator's own
+        hook = c.options.get("generator_hook") if c is not None else None
+        if hook is not None:
+            r = hook(eng, func, fr)
+            if r is not NotImplemented:
+                return r
+            break
     out = PList([])  # visible to loop contracts as `__yield__` (types / modifies) so that a yielding loop can be cut
     fr.yield_sink = out
     fr.vars["__yield__"] = out
